@@ -62,6 +62,9 @@ def civil_of(local_secs):
     while ordinal < 1:
         ordinal += 146097
         shift += 400
+    while ordinal > 3652059:          # 9999-12-31
+        ordinal -= 146097
+        shift -= 400
     dt = datetime.date.fromordinal(ordinal)
     iso = dt.isocalendar()
     return (dt.year - shift, dt.month, dt.day, sod // 3600, sod % 3600 // 60, sod % 60,
